@@ -63,10 +63,11 @@ theorem importDeps_ok2 {priv : Str → Prop} {K : Str → Prop} (ds : List Str) 
       have := ih (st := { st2 with instances := amInsert st2.instances d idx }) f12.sync hi2 hk2 hds'
       exact ⟨(f12.instances _).trans this.1, this.2⟩
 
-/-- what is asked of one aggregated import -/
+/-- what is asked of one aggregated import: its interface (if named) is not one the import
+    stands for (another name: nothing is reused or recorded), or is its own name, or is private -/
 def EntryOk (priv : Str → Prop) (st : EncSt) (name : Str) (ty : ItemTy) : Prop :=
   ty.kind = .instance → ty.iface = none ∨ ty.iface = some name ∨
-    ∃ key, ty.iface = some key ∧ priv key ∧ amGet st.instances key = none
+    ∃ key, ty.iface = some key ∧ (providesIface name key = false ∨ (priv key ∧ amGet st.instances key = none))
 
 theorem importItem_ok2 {priv : Str → Prop} {K : Str → Prop} {st : EncSt} (hs : Sync st) (hi : InstInv2 priv st)
     (hk : KeysIn K st) (name : Str) (ty : ItemTy) (hty : EntryOk priv st name ty) (hnp : ¬ priv name)
@@ -77,7 +78,7 @@ theorem importItem_ok2 {priv : Str → Prop} {K : Str → Prop} {st : EncSt} (hs
   unfold importItem
   cases hre : (if ty.kind = .instance then
       match ty.iface with
-      | some id => amGet st.instances id
+      | some i => if providesIface name i then amGet st.instances i else none
       | none => none
     else none : Option Nat) with
   | some idx =>
@@ -91,15 +92,21 @@ theorem importItem_ok2 {priv : Str → Prop} {K : Str → Prop} {st : EncSt} (hs
     | none => simp [hif] at hre
     | some i =>
       simp only [hif] at hre
+      have hprov : providesIface name i = true := by
+        by_cases hp : providesIface name i = true
+        · exact hp
+        · simp [hp] at hre
+      simp only [hprov, ↓reduceIte] at hre
       have hid : i = name := by
-        rcases hty hkd with h1 | h1 | ⟨i', h1, _, h3⟩
+        rcases hty hkd with h1 | h1 | ⟨i', h1, h2⟩
         · simp [hif] at h1
         · simpa [hif] using h1
         · rw [hif] at h1
           injection h1 with h1
           subst h1
-          rw [h3] at hre
-          cases hre
+          rcases h2 with h2 | ⟨_, h3⟩
+          · rw [hprov] at h2; cases h2
+          · rw [h3] at hre; cases hre
       subst hid
       refine ⟨ImpFrame.refl hs, hi, hk, ?_⟩
       rw [hkd]
@@ -140,38 +147,48 @@ theorem importItem_ok2 {priv : Str → Prop} {K : Str → Prop} {st : EncSt} (hs
         · simpa [hkd] using hhas'
       | some i =>
         simp only
-        refine ⟨?_, ?_, ?_, ?_⟩
-        · have := f012.instances (amInsert ((st0.emit .typeDef).1.emit (.import name ty.kind)).1.instances i
-            ((st0.emit .typeDef).1.emit (.import name ty.kind)).2)
-          simpa [hkd] using this
-        · intro id' j hq'
-          simp only [amGet_amInsert'] at hq'
-          rw [G_instances]
-          by_cases hd : i = id'
-          · subst hd
-            simp only [↓reduceIte, Option.some.injEq] at hq'
-            subst hq'
-            rcases hty hkd with h1 | h1 | ⟨i', h1, h2, _⟩
-            · simp [hif] at h1
-            · rw [hif] at h1
-              injection h1 with h1
-              subst h1
-              exact Or.inr (by simpa [hkd] using hhas')
-            · rw [hif] at h1
-              injection h1 with h1
-              subst h1
-              exact Or.inl h2
-          · simp only [hd, ↓reduceIte] at hq'
-            have := hi2 id' j (by simpa [hkd] using hq')
+        by_cases hprov : providesIface name i = true
+        · simp only [hprov, ↓reduceIte]
+          refine ⟨?_, ?_, ?_, ?_⟩
+          · have := f012.instances (amInsert ((st0.emit .typeDef).1.emit (.import name ty.kind)).1.instances i
+              ((st0.emit .typeDef).1.emit (.import name ty.kind)).2)
             simpa [hkd] using this
-        · intro id' hne
-          simp only [amGet_amInsert'] at hne
-          by_cases hd : i = id'
-          · subst hd; exact hiface i hif
-          · simp only [hd, ↓reduceIte] at hne
-            exact hk2 id' (by simpa [hkd] using hne)
-        · rw [G_instances]
-          simpa [hkd] using hhas'
+          · intro id' j hq'
+            simp only [amGet_amInsert'] at hq'
+            rw [G_instances]
+            by_cases hd : i = id'
+            · subst hd
+              simp only [↓reduceIte, Option.some.injEq] at hq'
+              subst hq'
+              rcases hty hkd with h1 | h1 | ⟨i', h1, h2⟩
+              · simp [hif] at h1
+              · rw [hif] at h1
+                injection h1 with h1
+                subst h1
+                exact Or.inr (by simpa [hkd] using hhas')
+              · rw [hif] at h1
+                injection h1 with h1
+                subst h1
+                rcases h2 with h2 | ⟨h2, _⟩
+                · rw [hprov] at h2; cases h2
+                · exact Or.inl h2
+            · simp only [hd, ↓reduceIte] at hq'
+              have := hi2 id' j (by simpa [hkd] using hq')
+              simpa [hkd] using this
+          · intro id' hne
+            simp only [amGet_amInsert'] at hne
+            by_cases hd : i = id'
+            · subst hd; exact hiface i hif
+            · simp only [hd, ↓reduceIte] at hne
+              exact hk2 id' (by simpa [hkd] using hne)
+          · rw [G_instances]
+            simpa [hkd] using hhas'
+        · simp only [hprov, Bool.false_eq_true, ↓reduceIte]
+          refine ⟨?_, ?_, ?_, ?_⟩
+          · simpa [hkd] using f012
+          · simpa [hkd] using hi2
+          · simpa [hkd] using hk2
+          · simpa [hkd] using hhas'
     · simp only [hkd, ↓reduceIte]
       exact ⟨f012, hi2, hk2, hhas'⟩
 
@@ -182,7 +199,8 @@ open Wac.Spec
 
 theorem importAll_ok2 (L : List (Str × ItemTy)) (hnd : (L.map (·.1)).Nodup)
     (hent : ∀ e ∈ L, e.2.kind = .instance → e.2.iface = none ∨ e.2.iface = some e.1 ∨
-      ∃ i, e.2.iface = some i ∧ privIn L i ∧ ∀ e' ∈ L, e'.1 ≠ e.1 → e'.2.iface ≠ some i)
+      ∃ i, e.2.iface = some i ∧ (providesIface e.1 i = false ∨
+        (privIn L i ∧ ∀ e' ∈ L, e'.1 ≠ e.1 → e'.2.iface ≠ some i)))
     (l : List (Str × ItemTy)) {st : EncSt} {enc : List (Str × (Kind × Nat))} (l0 : List (Str × ItemTy))
     (hL : L = l0 ++ l) (hs : Sync st) (hi : InstInv2 (privIn L) st)
     (hk : KeysIn (fun i => i ∈ allDepsOf L ∨ ∃ e' ∈ l0, e'.2.iface = some i) st)
@@ -204,10 +222,11 @@ theorem importAll_ok2 (L : List (Str × ItemTy)) (hnd : (L.map (·.1)).Nodup)
       exact hnd.2.2 e'.1 (List.mem_map_of_mem (f := (·.1)) he') name (by simp) heq
     have hentry : EntryOk (privIn L) st name ty := by
       intro hkind
-      rcases hent (name, ty) hmem hkind with h1 | h1 | ⟨i, h1, h2, h3⟩
+      rcases hent (name, ty) hmem hkind with h1 | h1 | ⟨i, h1, h2 | ⟨h2, h3⟩⟩
       · exact Or.inl h1
       · exact Or.inr (Or.inl h1)
-      · refine Or.inr (Or.inr ⟨i, h1, h2, ?_⟩)
+      · exact Or.inr (Or.inr ⟨i, h1, Or.inl h2⟩)
+      · refine Or.inr (Or.inr ⟨i, h1, Or.inr ⟨h2, ?_⟩⟩)
         cases hq : amGet st.instances i with
         | none => rfl
         | some idx =>
